@@ -160,6 +160,11 @@ def stepD (a : CAcc) : List String → CAcc × String
         | _, _ =>
           let a0 := finishInternal a t
           accept (fire a0 (.ctx (.detect t xn))) a0 s!"completion callback of {xn} not enabled" t
+      | "cbe" =>
+        match s.bases[t]?, (s.tps[xn]?).map (fun p => p.st) with
+        | some (.cb p), _ => if p = xn then (a, "ok") else reject a "end of the callback of another taskpool" t
+        | _, some TpSt.earlyCb => (a, "ok")
+        | _, _ => reject a "callback end but the thread is not in that callback" t
       | "mcb" =>
         match compIndexOfSelf a xn with
         | some c =>
